@@ -210,10 +210,16 @@ def keyEq : CVal → CVal → Bool
   | .undefined, .undefined => true
   | _, _ => false
 
+/-- `isNegativeZero`: the float constant −0.0 is never cached -/
+def isNegZero : CVal → Bool
+  | .float v => v == 0x8000000000000000#64
+  | _ => false
+
 def findConst (cs : Array Const) (k : CVal) : Option Nat :=
+  if isNegZero k then none else
   (List.range cs.size).find? fun i =>
     match cs[i]! with
-    | .val v => keyEq v k
+    | .val v => !isNegZero v && keyEq v k
     | _ => false
 
 def sameSourceMap (a b : List (Nat × Nat)) : Bool :=
